@@ -676,6 +676,11 @@ def entry_args_provenance(out, pid, n=2):
         traits = ["Clone", "Default", "Debug", "PartialEq", "Hash", "Add", "Sub", "Neg", "Not"]
         nl = model.eval(ex2.ivar("len(args_list)", 0, n2), model_completion=True).as_long()
         lists, expect, t = [], {}, 0
+        # a list carries a shared bound(..) unless the model says that it has none (the presence is a configuration atom only on paths that ask for it)
+        shared = []
+        for i in range(min(nl, n2)):
+            dv = model[ex2.ivar("disc(args_list.[%d].bound)" % i, 0, 1)]
+            shared.append(not (dv is not None and dv.as_long() == 0))
         for i in range(min(nl, n2)):
             li = model.eval(ex2.ivar("len(args_list.[%d].items)" % i, 0, n2), model_completion=True).as_long()
             ents = []
@@ -684,10 +689,12 @@ def entry_args_provenance(out, pid, n=2):
                 t += 1
                 some = tv(ex2.ivar("disc(args_list.[%d].items.[%d].args)" % (i, j), 0, 1) == 0)
                 ents.append("%s(bound(T: M%d%d, ..))" % (name, i, j) if some else name)
-                expect[name] = sorted((["T:M%d%d" % (i, j)] if some else []) + ["T:L%d" % i])
-            lists.append(", ".join(ents + ["bound(T: L%d, ..)" % i]))
+                expect[name] = sorted((["T:M%d%d" % (i, j)] if some else []) + (["T:L%d" % i] if shared[i] else []))
+            lists.append(", ".join(ents + (["bound(T: L%d, ..)" % i] if shared[i] else [])))
         if not expect or tuple(lists) in seen:
             continue
+        if sum(1 for v in out.violations if v[0].startswith("args-provenance|")) >= 3:
+            break  # three replayed inputs say it; further models of the same obligation add nothing
         seen.add(tuple(lists))
         item = "%s struct X<T> { a: T }" % " ".join("#[derive_ex(%s)]" % l for l in lists[1:])
         res1 = common.expand_many([("attr", lists[0], item)])[0]
